@@ -1,6 +1,6 @@
 (** ocra.go and derive_rfc6287.go as translated from the Go source compute what the hand-written model computes. *)
 From Coq Require Import ZifyN ZifyNat ZifyBool String.
-From OtpV Require Import Prelude Sha Tables GoSem Errors Decoder Derive Otp Ocra Suite Src SrcLift SrcEqDecode SrcEqDerive SrcEqValidate SrcEqOcraV.
+From OtpV Require Import Prelude Sha Tables GoSem Errors Decoder Derive Otp Ocra Suite OtpProofs Src SrcLift SrcEqDecode SrcEqDerive SrcEqValidate SrcEqOcraV.
 Open Scope N_scope.
 Ltac Zify.zify_post_hook ::= Z.div_mod_to_equations.
 
@@ -63,10 +63,10 @@ Proof.
 Qed.
 
 Lemma src_deriveRFC6287_eq fuel junk secret cfg i : (11 <= fuel)%nat -> small_input i ->
-  Src.deriveRFC6287 fuel junk secret cfg i = lift_oc (Ocra.derive_rfc6287 secret cfg i).
+  Src.deriveRFC6287 fuel junk secret (Some cfg) i = lift_oc (Ocra.derive_rfc6287 secret cfg i).
 Proof.
   intros Hf (Hc & Hq & Hp & Hs & Ht).
-  unfold Src.deriveRFC6287, Ocra.derive_rfc6287, Ocra.derive_rfc6287_with.
+  unfold Src.deriveRFC6287, Ocra.derive_rfc6287, Ocra.derive_rfc6287_with. cbn [is_some negb deref rbind].
   rewrite src_SuiteConfig_Validate_eq. cbn [rbind].
   destruct (Ocra.suite_validate cfg) as [e|] eqn:Esv; [reflexivity|]. cbn [is_some].
   unfold Src.SuiteConfig_Config. cbn [rbind].
@@ -89,16 +89,16 @@ Qed.
 
 (** ---------- validateRFC6287, GenerateOCRA, ValidateOCRA ---------- *)
 Lemma src_validateRFC6287_eq fuel junk code secret cfg i : (11 <= fuel)%nat -> small_input i ->
-  Src.validateRFC6287 fuel junk code secret cfg i
+  Src.validateRFC6287 fuel junk code secret (Some cfg) i
   = lift_v (Otp.validate code (sc_digits cfg) (fun _ => Ocra.derive_rfc6287 secret cfg i)).
 Proof.
-  intros Hf Hi. unfold Src.validateRFC6287, Src.SuiteConfig_Config. cbn [rbind].
+  intros Hf Hi. unfold Src.validateRFC6287, Src.SuiteConfig_Config. cbn [is_some negb deref rbind].
   apply src_validate_eq. apply src_deriveRFC6287_eq; assumption.
 Qed.
 
 Lemma src_GenerateOCRA_eq fuel junk secret cfg i :
   (11 <= fuel)%nat -> (length secret < fuel)%nat -> small secret -> small_input i ->
-  Src.GenerateOCRA fuel junk secret cfg i = lift_oc (Ocra.generate_ocra secret cfg i).
+  Src.GenerateOCRA fuel junk secret (Some cfg) i = lift_oc (Ocra.generate_ocra secret cfg i).
 Proof.
   intros Hf Hfs Hs Hi. unfold Src.GenerateOCRA, Ocra.generate_ocra, Ocra.generate_ocra_with.
   pose proof (decode_cases fuel secret Hs Hfs) as Hd.
@@ -110,7 +110,7 @@ Qed.
 
 Lemma src_ValidateOCRA_eq fuel junk secret code cfg i :
   (11 <= fuel)%nat -> (length secret < fuel)%nat -> small secret -> small_input i ->
-  Src.ValidateOCRA fuel junk secret code cfg i = lift_v (Ocra.validate_ocra secret code cfg i).
+  Src.ValidateOCRA fuel junk secret code (Some cfg) i = lift_v (Ocra.validate_ocra secret code cfg i).
 Proof.
   intros Hf Hfs Hs Hi. unfold Src.ValidateOCRA, Ocra.validate_ocra, Ocra.validate_ocra_with.
   pose proof (decode_cases fuel secret Hs Hfs) as Hd.
@@ -120,3 +120,19 @@ Proof.
   - rewrite Hd. reflexivity.
 Qed.
 
+
+(** a nil Suite is answered with ErrInvalidRawSuite (after the secret was decoded), never dereferenced *)
+Lemma src_nil_suite fuel junk secret code i : (length secret < fuel)%nat -> small secret ->
+  (exists e, Src.GenerateOCRA fuel junk secret None i = Val ([], Some e)) /\
+  (exists e, Src.ValidateOCRA fuel junk secret code None i = Val (false, Some e)) /\
+  Src.deriveRFC6287 fuel junk secret None i = Val ([], Some (ESent ErrInvalidRawSuite)) /\
+  Src.validateRFC6287 fuel junk code secret None i = Val (false, Some (ESent ErrInvalidRawSuite)).
+Proof.
+  intros Hf Hs. pose proof (decode_cases fuel secret Hs Hf) as Hd.
+  pose proof (OtpProofs.decode_secret_no_panic secret) as Hnp.
+  unfold Src.GenerateOCRA, Src.ValidateOCRA.
+  destruct (decode_secret secret) as [key|e|].
+  - rewrite Hd. cbn [rbind is_some]. repeat split; try reflexivity; eexists; reflexivity.
+  - destruct Hd as [b Hd]. rewrite Hd. cbn [rbind is_some]. repeat split; try reflexivity; eexists; reflexivity.
+  - congruence.
+Qed.
